@@ -204,3 +204,15 @@ package peersync
 //@ ensures @C28 identity: result1 == nil ==> (result0 != nil && result0.id.value == ite(r.ID != "", r.ID, key) && result0.address == r.Address && result0.status == ite(r.Status != "", r.Status, StatusUnknown))
 //@ ensures @C28 times: result1 == nil ==> ((!r.LastPollAt.IsZero() ==> result0.lastPollAt == r.LastPollAt) && (!r.LastSeen.IsZero() ==> result0.lastObservedAt == r.LastSeen))
 //@ ensures @C28 capability: (result1 == nil && (r.Version != 0 || r.PeerAllowed || r.BTCSwapInPremiumRatePPM != 0 || r.BTCSwapOutPremiumRatePPM != 0 || r.LBTCSwapInPremiumRatePPM != 0 || r.LBTCSwapOutPremiumRatePPM != 0)) ==> (result0.capability != nil && result0.capability.version.value == r.Version && result0.capability.isPeerAllowed == r.PeerAllowed && ppmOf(result0.capability.btcSwapInPremiumRate) == r.BTCSwapInPremiumRatePPM && ppmOf(result0.capability.btcSwapOutPremiumRate) == r.BTCSwapOutPremiumRatePPM && ppmOf(result0.capability.lbtcSwapInPremiumRate) == r.LBTCSwapInPremiumRatePPM && ppmOf(result0.capability.lbtcSwapOutPremiumRate) == r.LBTCSwapOutPremiumRatePPM)
+
+// the guard peer-sync consults is the policy itself: every answer is read from
+// the policy's current suspicious list (no cached verdicts), so a peer added by
+// AddToSuspiciousPeerList is refused from the next message on
+//@ func (*peerGuard).Suspicious
+//@ property C26
+//@ requires g != nil
+//@ ensures @C26 asks-the-current-policy: result == (g.policy != nil && slices.Contains(g.policy.SuspiciousPeerList, peer.value))
+//@ func (*peerGuard).Allow
+//@ property C26 C25
+//@ requires g != nil
+//@ ensures @C25 asks-the-current-policy: result == (g.policy == nil || g.policy.AcceptAllPeers || slices.Contains(g.policy.PeerAllowlist, peer.value))
